@@ -96,19 +96,9 @@ NONCODING = ["tRNA", "rRNA", "misc_RNA", "ncRNA", "lncRNA", "snoRNA", "tmRNA"]
 
 
 def setup(ctx):
-    """Before anything is exported in this process: a few hundred distinct (IUPAC) codon objects are created and dropped, as a long
-    annotation run would have done - what an export says about start codons must not depend on how many codons the process has seen."""
-    import itertools as _it
+    from bcv import core
 
-    from inscripta.biocantor.gene.codon import Codon
-
-    n = 0
-    for trip in _it.product("ACGTNRYKMSW", repeat=3):
-        c = Codon("".join(trip))
-        n += 1 if c is not None else 0
-        if n >= 700:
-            break
-    ctx.bump("codon-storm-codons", n)
+    core.codon_storm(ctx)
 
 
 def selftest():
